@@ -53,15 +53,30 @@ def mode_cfg(mode):
 OPNAME = {"CONV_2D_TRANSPOSE": "CONV_2D_TRANSPOSE"}
 
 
-def apply_recipe(q, scn, info):
-  """One rule per quantised operator; regex = the unique name of its first output tensor."""
+def apply_recipe(q, scn, info, seed=0):
+  """One rule per quantised operator; regex = the unique name of its first output tensor.
+
+  An operator in no-quantize mode is realised in one of the ways a recipe can resolve to no-quantize (C03): no matching
+  rule, an explicit no_quantize rule, or a '*' rule whose config the operator does not support (skipped at resolution).
+  """
   _, Q = _lib()
   n = 0
   nsub = len(scn["subs"])
+  opnames = {x.value for x in Q.TFLOperationName}
+  unsupported = Q.OpQuantizationConfig(weight_tensor_config=Q.TensorQuantizationConfig(16, True), compute_precision=Q.ComputePrecision.INTEGER)
   for si, sub in enumerate(scn["subs"]):
     for oi, o in enumerate(sub["ops"]):
       md = scn["mode"][si][oi]
       if md["m"] == "NOQ":
+        style = (seed + 3 * si + oi) % 3
+        name = info["names"][si][o["outs"][0]] if info.get("names") else synth.tname(si, o["outs"][0], nsub)
+        code = info["codes"][si][oi]
+        if style == 1 and code in opnames:
+          q.update_quantization_recipe(name, Q.TFLOperationName(code), None, "no_quantize")
+          n += 1
+        elif style == 2:
+          q.update_quantization_recipe(name, Q.TFLOperationName.ALL_SUPPORTED, unsupported)
+          n += 1
         continue
       cfg, alg = mode_cfg(md)
       q.update_quantization_recipe(synth.tname(si, o["outs"][0], nsub), Q.TFLOperationName(info["codes"][si][oi]), cfg, alg)
@@ -113,7 +128,7 @@ def run_impl(scn, seed=0, stats="inject", const_fn=None, model=None, info=None):
     model, info = synth.build(scn, seed, const_fn=const_fn)
   res = {"in_bytes": model, "info": info, "out_bytes": None, "exc": None}
   q = quantizer.Quantizer(model)
-  apply_recipe(q, scn, info)
+  apply_recipe(q, scn, info, seed)
   res["recipe"] = q.get_quantization_recipe()
   try:
     cal = None
